@@ -98,7 +98,8 @@ class VC:
             a = sym.sym_array(name, shape)
             return a
         if name not in self.values:
-            raise NativeInapplicable(f"no value for input {name}")
+            # input declared after the refuted obligation was recorded: any admissible value will do
+            self.values[name] = _np.ones(shape)
         return _np.array(self.values[name], dtype=float).reshape(shape)
 
     def real(self, name):
@@ -106,7 +107,7 @@ class VC:
             self.inputs[name] = ()
             return sym.sym_scalar(name)
         if name not in self.values:
-            raise NativeInapplicable(f"no value for input {name}")
+            self.values[name] = 1.0
         return float(self.values[name])
 
     def const_array(self, a):
@@ -207,6 +208,26 @@ class VC:
     def abs_(self, x):
         return abs(x)
 
+    # elementary functions in both modes (sym: the same UF terms the facade builds)
+    def norm2(self, xs):
+        if self.symbolic:
+            from .symnp import sym_norm
+
+            return sym_norm(_np.asarray(list(xs), dtype=object).view(SymArray))
+        return float(_np.linalg.norm(_np.asarray(list(xs), dtype=float)))
+
+    def sqrt(self, x):
+        return SymReal.lift(x).sqrt() if self.symbolic else math.sqrt(x)
+
+    def arccos(self, x):
+        return SymReal.lift(x).arccos() if self.symbolic else math.acos(max(-1.0, min(1.0, x)))
+
+    def sin(self, x):
+        return SymReal.lift(x).sin() if self.symbolic else math.sin(x)
+
+    def cos(self, x):
+        return SymReal.lift(x).cos() if self.symbolic else math.cos(x)
+
     def eq_arr(self, a, b, scale=None):
         a = _np.asarray(a, dtype=object if self.symbolic else float)
         b = _np.asarray(b, dtype=object if self.symbolic else float)
@@ -248,8 +269,6 @@ class VC:
     def assume(self, cond, name=None):
         c = self._b(cond)
         if self.symbolic:
-            if c.u is not None:
-                CTX.add(z3.Not(c.u))
             CTX.add(c.z)
             if c.c is False:
                 raise PathAbort("assumption is false")
@@ -272,6 +291,13 @@ class VC:
             self._record(name, kind, c, detail)
         else:
             self.native_results.append((name, bool(c), detail))
+        return c
+
+    def lemma(self, name, cond):
+        """cut: prove `cond` as its own obligation, then use it as a hypothesis for what follows"""
+        c = self.prove(name, cond, kind="lemma")
+        if self.symbolic:
+            CTX.add(c.z, "lemma")
         return c
 
     def canary(self, name, cond):
@@ -304,7 +330,9 @@ class VC:
 
     # ------------------------------------------------------------------ solving (sym mode)
     def _record(self, name, kind, c: SymBool, detail):
-        goal = c.z if c.u is None else z3.And(z3.Not(c.u), c.z)
+        # c.z already encodes IEEE semantics of comparisons with undefined operands (False), so an
+        # equality goal contains its own definedness conjunct; connectives stay lazy (A => B).
+        goal = c.z
         if kind != "canary" and z3.is_and(goal):
             # prove conjuncts separately (cheap ones vanish; the failing one is named precisely)
             parts = _flatten_and(goal)
